@@ -908,9 +908,16 @@ class DestHandler:
             self._params.acked_params.last_end_offset = offset + data_len
         if offset + data_len <= self._params.acked_params.last_start_offset:
             # Might be a re-requested FD PDU.
-            self._params.acked_params.lost_seg_tracker.remove_lost_segment(
-                (offset, offset + data_len)
-            )
+            try:
+                self._params.acked_params.lost_seg_tracker.remove_lost_segment(
+                    (offset, offset + data_len)
+                )
+            except ValueError:
+                # The segment reaches beyond the end of a lost segment. Keep the lost segment so it
+                # is requested again.
+                _LOGGER.warning(
+                    f"file data [{offset}, {offset + data_len}) not aligned to the lost segments"
+                )
 
     def _deferred_lost_segment_handling(self) -> None:
         if not self._params.acked_params.deferred_lost_segment_detection_active:
